@@ -9,7 +9,7 @@ from vlib.harness import ok, skip, viol
 PID = "C11"
 RULE = ("Generated programs (the C02 generator: all instruction forms, data directives, labels, EQU, any origin or none) "
         "optionally padded by an RMB/FCB block to sizes 300 / 3000 / 9000 or to an exact image length on a tape-block, "
-        "sector or granule edge (254..257, 509..511, 2290..2309, 4596..4611, 6902..6912), with or "
+        "sector or granule edge (254..257, 509..511, 2290..2309, 4596..4611, 6902..6912), or to 20-60 KB, with or "
         "without NAM (1-12 letters/digits in either case), with or without --name, with END / END label / no END, "
         "are assembled by a real assembler.py process with each non-empty subset of {--to_bin, --to_cas, --to_dsk}. "
         "Oracle: reference image = in-process Program on the same lines; .bin == image byte for byte; the independent "
@@ -43,8 +43,15 @@ def enumerated(tier, seed):
     return []
 
 
+_big_case = st.fixed_dictionaries(dict(
+    prog=proggen.small_program, nam=_name, cli_name=st.none(), nam_pos=st.just(0), bulk=st.sampled_from([20000, 40000, 60000]),
+    target_len=st.none(), switches=_switches, end=st.sampled_from(["none", "plain"])))
+
+
 def searches(tier):
-    return [("programs", _case, 640 if tier == "quick" else 30000)]
+    if tier == "quick":
+        return [("programs", _case, 640), ("large_programs", _big_case, 16)]
+    return [("programs", _case, 30000), ("large_programs", _big_case, 400)]
 
 
 def build(case):
